@@ -30,7 +30,7 @@ _CHECK = None
 class Config:
     def __init__(self, name, fn, params=None, split=None, witness_every=0, max_paths=None,
                  prove_timeout_ms=120000, branch_timeout_ms=30000, max_fanout=64, dump_smt=0,
-                 expect_paths=True):
+                 expect_paths=True, nonlinear=False):
         self.name = name
         self.fn = fn
         self.params = params or {}
@@ -42,6 +42,7 @@ class Config:
         self.max_fanout = max_fanout
         self.dump_smt = dump_smt
         self.expect_paths = expect_paths
+        self.nonlinear = nonlinear
 
 
 def _run_task(task):
@@ -53,7 +54,8 @@ def _run_task(task):
     ex = core.Explorer(cfg.name, cfg.params, branch_timeout_ms=cfg.branch_timeout_ms,
                        prove_timeout_ms=cfg.prove_timeout_ms, max_fanout=cfg.max_fanout,
                        max_paths=cfg.max_paths, split_depth=split_depth, prefix=prefix,
-                       witness_every=cfg.witness_every, dump_smt=cfg.dump_smt)
+                       witness_every=cfg.witness_every, dump_smt=cfg.dump_smt,
+                       nonlinear=cfg.nonlinear)
     ex.reset_hooks.append(loader.clear_caches)
     ex.reset_hooks.append(symnp._reset_write_log)
     if _CHECK is not None and hasattr(_CHECK, 'reset'):
